@@ -141,3 +141,7 @@ def event_obligation(name):
 
 obligation('C04', 'C04-3a BridgeUnlock: withdrawal event id honoured at most once')(event_obligation('BridgeUnlock'))
 obligation('C04', 'C04-3b BridgeTransfer: withdrawal event id honoured at most once')(event_obligation('BridgeTransfer'))
+
+
+from obligations.c18 import ics20_obligation
+obligation('C04', 'C04-3c Ics20Withdrawal on behalf of a bridge: withdrawal event id honoured at most once')(ics20_obligation('C04'))
